@@ -191,7 +191,7 @@ def main():
                 buf += chunk
             os.close(r)
             os.waitpid(pid, 0)
-            out[n] = json.loads(buf.decode()) if buf else ["crashed", False, "crashed"]
+            out[n] = json.loads(buf.decode()) if buf else ["crashed", False, "crashed", True]
             if not a.full:
                 out[n][2] = json.dumps(out[n][2])[:160]
         json.dump(out, open(a.out, "w"))
@@ -201,7 +201,7 @@ def main():
         before = read_cells(readers)
         for n in names:
             with contextlib.redirect_stdout(sink):
-                d, intact, short = catalogue.run_signature(S, n)
+                d, intact, short, _same = catalogue.run_signature(S, n)
             after = read_cells(readers)
             changed = sorted(k for k in after if after[k] != before[k])
             before = after
